@@ -673,6 +673,17 @@ func (s *seatRun) onNext(pre, post []seatView, prevD int, err error) {
 		if !s.props["C08"] {
 			return
 		}
+		// the deal-in clause for a joiner who has not come yet: right after the positions were assigned, an
+		// empty seat strictly between dealer and big blind is closed - a player taking it now would
+		// otherwise be dealt in on the next hand whether or not the button has passed him
+		// (claimed where the button would stop short of the seat: three or more players, seat behind the small blind)
+		for x, v := range post {
+			if !v.occ && v.act && sb.ID != d.ID && strictlyBetween(sb.ID, x, bb.ID, s.max) {
+				s.fail("C08/open-seat-between-dealer-and-bb", cause, fmt.Sprintf("after Next(): dealer %d sb %d bb %d, empty seat %d between dealer and big blind is open: whoever takes it is dealt in before the button has passed it (seats: %v)", d.ID, sb.ID, bb.ID, x, post))
+				return
+			}
+		}
+		s.rep.Inc("empty_seats_between_checked")
 		// deal-in watch
 		if s.watchSeat >= 0 && (!post[s.watchSeat].occ || post[s.watchSeat].res) {
 			s.watchSeat = -1 // the joiner has not sat in: nothing is claimed
